@@ -46,6 +46,8 @@ def run_property(prop: str, repo: Path, tier: str, seed: int, write_evidence: bo
         mod.run(ctx)
         from .rules.common import check_decorators, check_overrides, check_params_stable
         check_params_stable(ctx)
+        from .rules.common import check_param_defaults
+        check_param_defaults(ctx)
         check_decorators(ctx)
         check_overrides(ctx)
         from .rules.common import check_class_state, check_module_effects, check_njit_options, check_special_methods
